@@ -91,14 +91,15 @@ structure PhReport where
 /-- `dom.SearchEqual(ph)` for a string `ph`: the value is that very string -/
 def searchEqualStr (ph : String) (v : Scalar) : Bool := v.ty == "string" && v.text == ph
 
-/-- loop of `placeholderResolver.Resolve`; note the code tests `slices.Contains(failedKeys, ph)`
-    with the VALUE text `ph`, not the key -/
+/-- loop of `placeholderResolver.Resolve`.  Since the D32 repair (f8018cb) the code tests
+    `slices.Contains(failedKeys, k)` with the KEY; before it tested the VALUE text `ph` — that shape is
+    kept as `phLoopNofix` in YtkModel/GapAnalyticsNofix.lean (the driver never runs it). -/
 def phLoop (hasPh : String → Bool) (filter : String → Bool) (resolve : String → String) (doc : Doc) :
     Flat → PhReport → PhReport
   | [], acc => acc
   | (k, v) :: r, acc =>
     let ph := v.text
-    if filter k && hasPh ph && (ph == resolve ph) && !acc.failedKeys.contains ph then
+    if filter k && hasPh ph && (ph == resolve ph) && !acc.failedKeys.contains k then
       phLoop hasPh filter resolve doc r
         { failedKeys := acc.failedKeys ++ [k]
           details := acc.details ++ [(k, v, search (searchEqualStr ph) doc)] }
